@@ -40,6 +40,10 @@ func checkC05(c *Ctx) {
 	c.Expect("C05-R10", 1)
 	c.Rule("C05-R11", "bytes a read returned are queued whatever error came with them (io.Reader: process n > 0 before the error): the send of chunk[:n] is not decided by the read's error")
 	c.Expect("C05-R11", 1)
+	c.Rule("C05-R12", "input a parser removes with the answer 'complete' becomes an event: every path to a complete-return appends to the event list, except for input the decoder could not decode (U+FFFD that does not compare equal to the charset's own encoding of U+FFFD)")
+	c.Expect("C05-R12", 6)
+	c.Rule("C05-R13", "StopQ hands out the channel that only Fini closes (pollers, PostEventWait and ChannelEvents end on it): nothing reachable from Suspend closes that field, Fini's path does")
+	c.Expect("C05-R13", 3)
 	c.Rule("C05-R8", "no producer of events looks at the fill level of an event queue (len/cap) to decide whether to deliver: that is dropping by another name")
 	c.Expect("C05-R6", 1)
 	c.Expect("C05-R8", 1)
@@ -65,6 +69,7 @@ func checkC05(c *Ctx) {
 		c05Events(c, p)
 		c05FillLevel(c, p)
 		if cfg == "wasm" {
+			checkStopQIsQuit(c, p, "C05-R13", "wScreen")
 			continue
 		}
 		c05PostEvent(c, p)
@@ -74,6 +79,9 @@ func checkC05(c *Ctx) {
 		checkTimerDiscipline(c, p, "C05-R9")
 		checkQuitAlwaysClosed(c, p, "C05-R10")
 		checkReadBytesQueued(c, p, "C05-R11")
+		checkConsumedDelivers(c, p, "C05-R12", nil)
+		checkStopQIsQuit(c, p, "C05-R13", "tScreen")
+		checkStopQIsQuit(c, p, "C05-R13", "simscreen")
 	}
 }
 
